@@ -7,6 +7,12 @@ CHECKS = {
  "C17": dict(technique="TLA+ spec BitSeq (register machine over lists of booleans); TLC exhaustive for MaxLen=4; TLC-enumerated boundary transitions at MaxLen=64 replayed into yui::bitseq::BitSeq; recorded random histories validated by Trace_BitSeq",
              text="TLC checks the list-of-booleans machine exhaustively for MaxLen=4 (all register states, actions, arguments, order axioms); every TLC transition of the length-0/32/64 boundary family becomes one implementation test, and seeded random histories of the real type are validated event by event against the spec (register file, result class, returned value).",
              note="Trusted: TLC, the harness' projection of a BitSeq through the public (as_u64,len) pair. Out-of-range indices are not issued.", design="§3 C17"),
+ "C18": dict(technique="TLA+ specs Link (PD codes: incidence, strand-through components, admissible orientations, signs, writhe, resolutions/circles, Seifert smoothing, genus-0 planarity, moves) and Braid (closure); TLC exhaustive on all codes with <=2 crossings, all short braid words and all move histories from them; TLC-enumerated diagrams with expected values replayed into yui_link::Link / Braid::closure; recorded histories on catalogue diagrams and braid closures validated by Trace_Link",
+             text="TLC checks on a small complete family that two independent descriptions of components, orientations and circles agree, that writhe/component count predicted by the moves (mirror negates, renumber/reorder keep, kink adds its sign, closure = exponent sum / cycle count) equal the first-principles values, and that every state resolves to the edge-identification circles; every generated diagram (all states) and braid word becomes an implementation test, and seeded histories of the real Link/Braid (special kink codes, catalogue, closures on 2..8 strands incl. components that only pass over) are validated event by event.",
+             note="Trusted: TLC, the harness' projection through Link::data()/Path::edges(), the harness' own diagram surgery for generating inputs (re-derived by TLC). Valid PD code = labels twice + orientable + genus 0. Sign vectors of components that never pass under are accepted in either orientation.", design="§3 C18"),
+ "C04": dict(technique="TLA+ spec Jones (Kauffman state sum on the PD code over Link.tla, Laurent polynomials as functions, Euler characteristic of a bigraded table, isotopy-move machine with the polynomial as ghost); TLC exhaustive invariance under braid relations / Markov moves / R1 kinks / mirror / products on a small family with literature values pinned; state-sum polynomials replayed against jones_polynomial; recorded polynomials, Khovanov tables and move histories validated by Trace_Jones",
+             text="TLC model-checks that the spec's state-sum polynomial is invariant under every isotopy move of the machine, inverts under mirror and multiplies under disjoint union on all short braid words and their move histories; every diagram of that family is replayed against jones_polynomial; for catalogue diagrams and braid closures the recorded polynomial must equal the state sum TLC computes from the PD code (up to 8/9 crossings), stay constant along recorded isotopy moves, invert under mirror, and equal the graded Euler characteristic of every recorded Khovanov table (two library routes, up to 13 crossings).",
+             note="Trusted: TLC, Link.tla/Braid.tla (model-checked in C18), projection of LPoly to (exponent, coefficient) pairs and of Summand::rank(). Above the absolute bound only relations are checked.", design="§3 C04"),
  "C14": dict(technique="TLA+ spec Scalars (register machine over exact rings, BigNum limb arithmetic in TLA+); TLC exhaustive on small complete domains with expected values replayed on all 16 scalar types in six operator forms; recorded histories validated by Trace_Scalars",
              text="TLC model-checks the bignum and ring libraries against the ring axioms, enumerates every operand pair/operation of the small domains with the canonical expected value (replayed on every scalar type and operator form), and validates seeded histories of the real types (values to 10^300+, machine ints near their limits) event by event: every result must be the exact ring element in canonical form and every comparison the mathematical answer.",
              note="Trusted: TLC, BigNum.tla/Rings.tla (model-checked), decimal->limb chunking in the harness, Bezout witnesses re-multiplied by TLC. Machine-integer ops only inside the representable envelope.", design="§3 C14"),
